@@ -527,7 +527,7 @@ def check_C08(chk, binp):
     chk.evaluations += npairs
     for f in allf:
         chk.distinct.add(f)
-    chk.rule = 'positions as in C01 plus one-component variants (counters, one right, side, ep target); grouped by the rule key that the extracted Rules compute; every hasher seed of the run'
+    chk.rule = 'positions as in C01 plus the complete en-passant family (colour x target file x capturing neighbours) plus one-component variants (counters, one right, side, ep target); grouped by the rule key that the extracted Rules compute; every hasher seed of the run'
     chk.samples += [{'pair': [v[0], v[2]], 'class': v[1]} for v in var[:3]]
     for what, fs, found in viol[:3]:
         chk.violation('%s: %s' % (what, fs), {'kind': 'input', 'fens': fs, 'what': what}, found_input=True)
@@ -1223,13 +1223,13 @@ def check_C06(chk, binp):
     # REUSED MEMORY: P has a forced mate in 5 plies; P is searched (too shallow to see it), then the position P2 reached by a
     # mate-keeping move and any reply (forced mate in 3 plies) is searched with the SAME artifact, in which P2 was an inner node
     # (entries written below a check carry extended depths). Whenever the second search claims a mate its first move must keep it.
-    deep = [(f, n, keep) for f, n, keep in wins if n == 5][:10 if quick else 150]
-    succs = [(f, mv, keep[mv]) for f, n, keep in deep for mv in list(keep)[:2]]
+    deep = [(f, n, keep) for f, n, keep in wins if n == 5][:40 if quick else 400]
+    succs = [(f, mv, keep[mv]) for f, n, keep in deep for mv in list(keep)[:3]]
     sg = run_cases(MODEL, ['specgen\t' + sc for (_, _, sc) in succs], 'C06-chain-gen', timeout=900)
     p2s = []
     for (f, mv, sc), r in zip(succs, sg):
         reps = [x.split('=', 1)[1] for x in (r or '').split(';') if '=' in x]
-        for p2 in rnd.sample(reps, min(len(reps), 2)):
+        for p2 in rnd.sample(reps, min(len(reps), 3)):
             p2s.append((f, p2))
     sm2 = run_cases(MODEL, ['specmate\t%s\t5' % p2 for (_, p2) in p2s], 'C06-chain-solve', timeout=1500)
     chains = []; chmeta = []
@@ -1244,10 +1244,11 @@ def check_C06(chk, binp):
         for d in (3, 4):
             nt, nb = rnd.choice([(4, 256), (2, 64), (1, 16)])
             chains.append('search\t%d\t%d\t%d\t-\t1\t%d\t%d\t-\t%s|%s' % (rnd.randrange(1 << 30), rnd.randrange(1 << 50), d, nt, nb, f, p2)); chmeta.append((p2, n2, keep2, d))
-    chains = chains[:60 if quick else 2000]; chmeta = chmeta[:len(chains)]
-    chi = run_cases(binp, chains, 'C06-chain-impl', shards=8)
-    chm = run_cases(MODEL, [c for c, m in zip(chains, chmeta) if m[3] <= 3], 'C06-chain-model', timeout=1500)
-    bch = stream(chk, 'reused memory: P (mate in 5) then P2 (mate in <= 3 after a mate-keeping move and a reply) with the same artifact: events + node trace', [c for c, m in zip(chains, chmeta) if m[3] <= 3], [o for o, m in zip(chi, chmeta) if m[3] <= 3], chm, 'extracted search model')
+    chains = chains[:700 if quick else 8000]; chmeta = chmeta[:len(chains)]
+    chi = run_cases(binp, chains, 'C06-chain-impl', shards=16)
+    msel = [i for i, m in enumerate(chmeta) if m[3] <= 3][:26 if quick else 300]      # the extracted model is slow
+    chm = run_cases(MODEL, [chains[i] for i in msel], 'C06-chain-model', timeout=1500)
+    bch = stream(chk, 'reused memory: P (mate in 5) then P2 (mate in <= 3 after a mate-keeping move and a reply) with the same artifact: events + node trace', [chains[i] for i in msel], [chi[i] for i in msel], chm, 'extracted search model')
     chsus = []
     for c, m, o in zip(chains, chmeta, chi):
         ps = parse_search(o)
@@ -1735,6 +1736,43 @@ def check_C14(chk, binp):
             nb += 1
             chk.violation('UCI session with malformed lines %d: %s' % (i, problems[0]), {'kind': 'history', 'problems': problems[:5], 'transcript': [(s['cmd'], s['out'][-4:]) for s in steps][:80]}, found_input=True)
     chk.streams.append({'name': 'UCI process fed malformed lines stays alive, answers isready, keeps its position, exits 0', 'against': 'session monitor', 'cases': len(res), 'disagreements': nb})
+    # malformed `go` lines (they start a search all the same, so the session monitor above leaves them out): the process must
+    # stay alive, answer isready, stop, and exit 0
+    GO_LINES = ['go depth', 'go depth x', 'go depth -1', 'go depth +3', 'go depth 0', 'go movetime', 'go movetime abc', 'go movetime -5', 'go movetime +7',
+                'go movetime 99999999999999999999', 'go movetime 2147483648', 'go movetime -2147483649', 'go depth 18446744073709551616',
+                'go depth 18446744073709551615 movetime 1', 'go wtime 1000 btime 1000', 'go infinite', 'go depth \u00e9', 'go movetime \u0661\u0662',
+                'go depth 2 depth', 'go movetime 5 movetime', 'go depth 1 depth 2 depth 3', 'go\tdepth\t1', 'go depth 1 extra', 'go ' + '9' * 400,
+                'go depth ' + '0' * 300 + '2', 'go movetime 1e3', 'go depth 0x10', 'go depth 1_0']
+    gbad = []
+    def go_session(line):
+        se = U.Session(binp)
+        probs = []
+        try:
+            st = se.send('position startpos moves e2e4')
+            if not st['synced']: probs.append('no readyok after position')
+            st = se.send(line)
+            if not st['synced']: probs.append('no readyok after %r' % line)
+            time.sleep(0.05)
+            st = se.send('stop')
+            if not st['synced']: probs.append('no readyok after stop (following %r)' % line)
+            st = se.send('.state')
+            fen = U.state_fen(st)
+            if fen is None or not fen.startswith('rnbqkbnr/pppppppp/8/8/4P3/8/PPPP1PPP/RNBQKBNR b KQkq'):
+                probs.append('position lost after %r: %r' % (line, fen))
+        finally:
+            rc = se.close()
+        if rc != 0: probs.append('exit status %r after %r' % (rc, line))
+        return probs
+    import concurrent.futures as cf2
+    with cf2.ThreadPoolExecutor(max_workers=6) as ex:
+        gres = list(ex.map(go_session, GO_LINES if not quick else GO_LINES))
+    for line, probs in zip(GO_LINES, gres):
+        if probs:
+            gbad.append((line, probs))
+    chk.streams.append({'name': 'UCI process fed malformed go lines: alive, isready answered, stop obeyed, position kept, exit 0', 'against': 'the property', 'cases': len(GO_LINES), 'disagreements': len(gbad)})
+    chk.evaluations += len(GO_LINES)
+    for line, probs in gbad[:3]:
+        chk.violation('malformed go line %r: %s' % (line, probs[0]), {'kind': 'input', 'line': line, 'problems': probs}, found_input=True)
     # inventory of panic sites in the parsers / UCI loop vs the sites the model treats
     inv = json.load(open(f'{VERIF}/inventories/panic_sites.json'))
     exp_path = f'{VERIF}/tools/panic_sites_expected.json'
